@@ -2,7 +2,7 @@
 from engine.h4v import H, libhdf_units
 
 META = dict(
-    bounds=["S1: 2 append-only workloads (5 new elements needing new descriptor blocks with ndds 4/5/16; new vdata+vgroup) on a file holding 2 elements (+ vdata + vgroup); "
+    bounds=["S1: 2 append-only workloads (5 new elements needing new descriptor blocks with ndds 4/5/16; new vdata+vgroup) on a file holding 2 elements (+ vdata + vgroup), also with every DD block exactly full and with a data-less last DD block being the last thing in the file; "
             "every prefix of the session's ordered writes materialised and reopened (each library-level write atomic); payload symbolic"],
     stubs=["stdio = models/memio.c with a data-carrying write log", "error stack = codes only", "malloc never fails"],
     outside=["SD / GR / annotation sessions (they rewrite existing metadata; the in-flush guarantee excludes them)", "torn writes inside one library-level write"],
